@@ -202,6 +202,9 @@ func (fr *frame) get(key ssa.Value) value {
 		return v
 	case *ssa.Global:
 		if r, ok := fr.i.globals[key]; ok {
+			if key.Pkg != nil && !isModulePkg(key.Pkg) && depStates[key.Pkg] != depReady {
+				fr.i.ensureDepInit(key.Pkg, key)
+			}
 			return r
 		}
 	}
@@ -617,11 +620,22 @@ func callSSA(i *interpreter, caller *frame, callpos token.Pos, fn *ssa.Function,
 			meta.depInit = fn.Name() == "init" && fn.Pkg != nil && fn.Signature.Recv() == nil && !strings.HasPrefix(fn.Pkg.Pkg.Path(), ModulePrefix)
 			meta.inModule = fn.Pkg != nil && strings.HasPrefix(fn.Pkg.Pkg.Path(), ModulePrefix)
 			meta.ext = externals[meta.name]
+			if meta.ext == nil && (strings.HasPrefix(meta.name, "(*strings.Builder).") || strings.HasPrefix(meta.name, "(*bytes.Buffer).")) {
+				name := meta.name
+				meta.ext = func(fr *frame, args []value) value { panic(unsupported("no model for " + name)) }
+			}
 			fnMetas[fn] = meta
 		}
 		name := meta.name
 		if meta.depInit {
-			return nil // dependency initialisers are not executed
+			// dependency packages are initialised lazily (depinit.go); inside such an initialisation the
+			// inits of the packages it imports run the same way
+			if depInitDepth > 0 && depStates[fn.Pkg] == depNone {
+				fr.i.ensureDepInit(fn.Pkg, nil)
+			}
+			if depStates[fn.Pkg] != depRunning || caller != nil {
+				return nil
+			}
 		}
 		if meta.inModule && !meta.touched {
 			meta.touched = true
